@@ -218,3 +218,51 @@ Theorem C04_struct_user_bounds :
   In (BUser id) bs <-> In id (c_preds (attrs_named (attr_name_of tr) (ri_attrs it))).
 Proof. exact FrontProofs.struct_user_bounds. Qed.
 Print Assumptions C04_struct_user_bounds.
+
+(** the where clause of the impl ([expand]: the type's own clause, or an empty one, extended by the bounds): every predicate of the type's own where clause is kept ... *)
+Theorem C04_impl_where_keeps_own :
+  forall (own : list N) (bounds : list bound) (p : N), In p own -> In (BUser p) (impl_where own bounds).
+Proof. exact FrontProofs.impl_where_keeps_own. Qed.
+Print Assumptions C04_impl_where_keeps_own.
+
+(** ... every inferred bound and bound(...) predicate is added ... *)
+Theorem C04_impl_where_adds_bounds :
+  forall (own : list N) (bounds : list bound) (b : bound), In b bounds -> In b (impl_where own bounds).
+Proof. exact FrontProofs.impl_where_adds_bounds. Qed.
+Print Assumptions C04_impl_where_adds_bounds.
+
+(** ... in that order: the own predicates first, then exactly the bounds *)
+Theorem C04_impl_where_order :
+  forall (own : list N) (bounds : list bound),
+  firstn (length own) (impl_where own bounds) = map BUser own /\
+  skipn (length own) (impl_where own bounds) = bounds.
+Proof. exact FrontProofs.impl_where_order. Qed.
+Print Assumptions C04_impl_where_order.
+
+(** whole-item statement, Display-like derives: the impl's where clause is the type's own predicates followed by the bounds of the expansion - whatever is inferred, also nothing *)
+Theorem C04_display_item_where_spec :
+  forall (cc : CharClass) (to_case : casing -> str -> str) (tr : trait) (it : ritem) (w : list bound),
+  d_item_where cc to_case tr it = ROk w <->
+  (exists (arms : list (body * list bound)) (bs : list bound),
+  d_expand_item cc to_case tr it = ROk (arms, bs) /\ w = map BUser (ri_where it) ++ bs).
+Proof. exact FrontProofs.display_item_where_spec. Qed.
+Print Assumptions C04_display_item_where_spec.
+
+(** the same for Debug (the bounds of the struct, or of every variant in order) *)
+Theorem C04_debug_item_where_spec :
+  forall (cc : CharClass) (it : ritem) (w : list bound),
+  g_item_where cc it = ROk w <->
+  (exists arms : list (gbody * list bound),
+  g_expand_item cc it = ROk arms /\ w = map BUser (ri_where it) ++ flat_map snd arms).
+Proof. exact FrontProofs.debug_item_where_spec. Qed.
+Print Assumptions C04_debug_item_where_spec.
+
+(** hence nothing the user wrote on the type and nothing the derive infers is ever missing from the impl *)
+Theorem C04_display_item_where_complete :
+  forall (cc : CharClass) (to_case : casing -> str -> str) (tr : trait) (it : ritem) (w : list bound),
+  d_item_where cc to_case tr it = ROk w ->
+  (forall p : N, In p (ri_where it) -> In (BUser p) w) /\
+  (forall (arms : list (body * list bound)) (bs : list bound) (b : bound),
+  d_expand_item cc to_case tr it = ROk (arms, bs) -> In b bs -> In b w).
+Proof. exact FrontProofs.display_item_where_complete. Qed.
+Print Assumptions C04_display_item_where_complete.
